@@ -204,7 +204,7 @@ func main() {
 	o := vh.ParseFlags()
 	quietLogs()
 	meta := vh.NewMeta("corpus cases; grid: one fixed two-target cache (origins, keyed element, atomic container), every ONCE query path over {a,b,*} of length 0..3 x origin placement {none, prefix oc, path oc, prefix foo, first element in the prefix} x target {t1,*}; random: 1-3 targets, 2-10 initial notifications (single/multi update, atomic, delete, keyed elements, origins in prefix or path), one request (ONCE/POLL/few STREAM; 1-3 subscription paths of length 0..3 with globs at any position, origins in prefix/path incl. conflicts, missing path/prefix/target, unknown target, updates_only), POLL: 0-3 triggers with 0-2 cache edits (updates, deletes, target removal) before each; in 1/6 of the ONCE/POLL cases the walk is overlapped by 2-6 concurrent single-update/delete writes (one writer goroutine per target), judged by the weak clause. distinct = distinct inputs; non-trivial = the RPC ended OK and at least one update was delivered")
-	e := &emitter{dir: o.Out, cf: newCaseFile(), meta: meta, limit: 300, require: "Subscribe.C05Check", nontriv: nontrivial}
+	e := &emitter{dir: o.Out, cf: newCaseFile(), meta: meta, limit: 255, require: "Subscribe.C05Check", nontriv: nontrivial}
 
 	if o.Replay != "" {
 		cs, err := readCases(o.Replay)
